@@ -10,6 +10,13 @@ pub fn generate(r: &mut Rng, tier: &str, emit: &mut dyn FnMut(String)) {
         if i % 3 == 0 {
             let s = crate::c19::gen_silent(r).replacen("sim C19", "sim C12", 1);
             emit(s);
+        } else if i % 3 == 1 {
+            // scripted responder with short TTLs: refresh marks, expiries and follow-up
+            // queries fall inside the horizon
+            let st = r.range(3, 8);
+            let tl = *r.pick(&[5_000u64, 12_000]);
+            let s = gen_scripted(r, "C12", st, tl, 4000).replacen("sim C12", "sim2 C12", 1);
+            emit(s);
         } else {
             let mut k = Knobs::base("C12");
             k.responders = 1 + r.below(2);
